@@ -52,7 +52,12 @@ LeafOK(lf, s) ==
   /\ lf.cte = s.cte
   /\ (s.kind # "part" => (lf.disp = s.disp /\ lf.fname = s.fname))
   /\ (s.kind = "embed" => lf.hascid)
-  /\ (s.desc # "" => lf.desc = s.desc)          \* whitespace-normalised by the reader
+
+(* C02 for the free-text values of a MIME part: file name (after the documented replacement), *)
+(* description and content-id read back as they were set (whitespace-normalised by the reader) *)
+LeafValuesOK(lf, s) ==
+  /\ (s.kind # "part" => lf.fname = s.fname)
+  /\ (s.desc # "" => lf.desc = s.desc)
   /\ (s.cid # "" => lf.cid = s.cid)
 
 TreeFlags(e) ==
@@ -66,6 +71,7 @@ TreeFlags(e) ==
   \cup F("C01_StructureFromLines", SameStructure(expected, byLines, n))
   \cup F("C01_LeafCount", Len(lvs) = n)
   \cup F("C01_LeafAttributes", Len(lvs) = n => \A i \in 1..n : LeafOK(lvs[i], b.slots[i]))
+  \cup F("C02_PartValues", Len(lvs) = n => \A i \in 1..n : LeafValuesOK(lvs[i], b.slots[i]))
   \cup F("C01_ReaderProblems", e.problems = <<>> \/ e.problems = [x \in {} |-> 0])
 
 OutFlags(e) ==
@@ -107,7 +113,7 @@ Step ==
             /\ UNCHANGED <<ms, b, lastline, viols>>
        [] Ev.ev = "hdr" ->
             /\ viol1' = viol1 \cup F("C02_ValueRoundTrip", Ev.got = Ev.want)
-                              \cup F("C18_UnfoldsToValue", Ev.got = Ev.want)
+                              \cup F("C18_UnfoldsToValue", Ev.gotx = Ev.wantx)
                               \cup F("C02_SingleOccurrence", Ev.count = 1)
             /\ stats' = [stats EXCEPT !.hdrs = @ + 1]
             /\ UNCHANGED <<ms, b, lastline, viols>>
